@@ -905,9 +905,9 @@ func TestCheck(t *testing.T) {
 	_ = cases
 	vcommon.Main(t, "C19",
 		vcommon.E("registry", enumRegistry, checkRegistry),
-		vcommon.S("defun", 32000, 800000, genDefun(), checkDefun),
-		vcommon.S("shadow", 64000, 1600000, genShadow(), checkShadow),
-		vcommon.S("redef", 24000, 600000, genRedef(), checkRedef),
+		vcommon.S("defun", 24000, 800000, genDefun(), checkDefun),
+		vcommon.S("shadow", 48000, 1600000, genShadow(), checkShadow),
+		vcommon.S("redef", 16000, 600000, genRedef(), checkRedef),
 	)
 }
 
